@@ -211,7 +211,7 @@ package types
 //@   serves C03
 //@   requires bigval(v) >= 0
 //@   mutates
-//@   noframe
+//@   ownwrites
 //@   ensures err == nil ==> 1 <= bigval(r) && bigval(r) < 115792089237316195423570985008687907852837564279074904382605163141518161494337 && 1 <= bigval(s) && bigval(s) < 115792089237316195423570985008687907852837564279074904382605163141518161494337
 //@   ensures err == nil && !maybeProtected ==> bigval(v) == 0 || bigval(v) == 1
 //@   ensures err == nil && maybeProtected && (bigval(v) == 0 || bigval(v) == 1 || bigval(v) == 27 || bigval(v) == 28) ==> bigval(v) == 27 || bigval(v) == 28
